@@ -692,7 +692,14 @@ fn inject(mut a: AigOwned, defect: u8, picks: &[u32]) -> (AigOwned, String) {
             let cyc: Vec<u64> = (0..len).map(|_| new_var()).collect();
             for k in 0..len {
                 let next = cyc[(k + 1) % len];
-                let other = if a.inputs.is_empty() || pick(3) == 0 { 1 } else { a.inputs[pick(a.inputs.len() as u64) as usize] ^ pick(2) };
+                // the cycle edge's sibling: constant true, an input, or constant false (a gate that
+                // folds to false without its other input being needed)
+                let other = match pick(4) {
+                    0 => 0,
+                    1 => 1,
+                    _ if a.inputs.is_empty() => 1,
+                    _ => a.inputs[pick(a.inputs.len() as u64) as usize] ^ pick(2),
+                };
                 let edge = 2 * next ^ pick(2);
                 let (x, y) = if pick(2) == 0 { (edge, other) } else { (other, edge) };
                 a.ands.push((Some(2 * cyc[k]), x, y));
@@ -723,14 +730,29 @@ fn inject(mut a: AigOwned, defect: u8, picks: &[u32]) -> (AigOwned, String) {
             match pick(4) {
                 0 => a.outputs.push(lit),
                 1 if !a.ands.is_empty() => {
+                    // as first or as second input of an existing gate; the sibling sometimes becomes
+                    // constant false
                     let k = pick(a.ands.len() as u64) as usize;
-                    a.ands[k].1 = lit;
+                    let first = pick(2) == 0;
+                    if first {
+                        a.ands[k].1 = lit;
+                    } else {
+                        a.ands[k].2 = lit;
+                    }
+                    if pick(3) == 0 {
+                        if first {
+                            a.ands[k].2 = 0;
+                        } else {
+                            a.ands[k].1 = 0;
+                        }
+                    }
                 }
                 2 if !a.latches.is_empty() => a.latches[0].1 = lit,
                 _ => {
-                    // undefined literal inside a dangling gate
+                    // undefined literal inside a dangling gate (either input, sibling true or false)
                     let g = new_var();
-                    a.ands.push((Some(2 * g), lit, 1));
+                    let sib = pick(2);
+                    a.ands.push(if pick(2) == 0 { (Some(2 * g), lit, sib) } else { (Some(2 * g), sib, lit) });
                 }
             }
             a.max_var_index = v.max(fresh) + 1;
@@ -763,6 +785,18 @@ fn inject(mut a: AigOwned, defect: u8, picks: &[u32]) -> (AigOwned, String) {
                     } else {
                         a.inputs.push(0);
                     }
+                }
+            }
+            // the two definitions in either order (the added one first half of the time)
+            if pick(2) == 0 {
+                if !a.inputs.is_empty() {
+                    a.inputs.rotate_right(1);
+                }
+                if !a.ands.is_empty() {
+                    a.ands.rotate_right(1);
+                }
+                if !a.latches.is_empty() {
+                    a.latches.rotate_right(1);
                 }
             }
             a.input_count = a.inputs.len() as u64;
@@ -905,7 +939,7 @@ fn run(ctx: &Ctx) {
     let n = ctx.share(ctx.tier.pick(1_600_000, 48_000_000));
     ctx.run_cases("renumber", n, case_strategy(), check);
     let n = ctx.share(ctx.tier.pick(160, 4_800));
-    let max = ctx.tier.pick(200_000, 1_000_000);
+    let max = ctx.tier.pick(600_000, 2_000_000);
     ctx.run_cases("renumber-deep", n, deep_strategy(max), check_deep);
 }
 
